@@ -19,6 +19,7 @@ INVARIANT BoxLaws
 INVARIANT RectLaws
 INVARIANT LawBracket
 INVARIANT LawSeparateSym
+INVARIANT LawOverlapNotSeparate
 INVARIANT ExtentsInRange
 PROPERTY Terminates
 CHECK_DEADLOCK FALSE
